@@ -18,7 +18,8 @@ Open Scope Z_scope.
 Inductive ikind :=
 | KCounter | KUpDown | KHist (bounds : list Z) | KGauge
 | KObsCounter | KObsUpDown | KObsGauge
-| KExpo (unit : Z).   (* Histogram instrument with a base-2 exponential view, MaxScale 0 *)
+| KExpo (unit : Z)    (* Histogram instrument with a base-2 exponential view, MaxScale 0 *)
+| KHistNS (bounds : list Z).   (* up-down counter with an explicit-bucket histogram view: no sum is kept (noSum) *)
 
 Definition is_async (x : ikind) : bool :=
   match x with KObsCounter | KObsUpDown | KObsGauge => true | _ => false end.
@@ -29,7 +30,12 @@ Definition kop (x : ikind) : aop :=
   match x with KGauge | KObsGauge => OpSet | _ => OpAdd end.
 
 Definition vecof (x : ikind) (v : Z) : vec :=
-  match x with KHist b => hvec b v | KExpo u => evec u v | _ => [v] end.
+  match x with
+  | KHist b => hvec b v
+  | KHistNS b => match hvec b v with _ :: r => 0 :: r | [] => [] end
+  | KExpo u => evec u v
+  | _ => [v]
+  end.
 
 Definition is_delta (t : temporality) : bool := match t with Delta => true | Cumulative => false end.
 
@@ -38,7 +44,7 @@ Definition cfg_of (x : ikind) (t : temporality) : aggcfg :=
 
 Definition class_of (x : ikind) : sclass :=
   match x with
-  | KCounter | KUpDown | KHist _ | KExpo _ => CSyncAdd
+  | KCounter | KUpDown | KHist _ | KExpo _ | KHistNS _ => CSyncAdd
   | KGauge => CSyncGauge
   | KObsCounter | KObsUpDown => CAsyncSum
   | KObsGauge => CAsyncGauge
